@@ -235,3 +235,27 @@ func VerifHarness_C16_FlagLayer() {
 	}
 	vsymReach("C16_flag_layer")
 }
+
+// C16-O2b: fractional seconds with symbolic digits: "S.DDDDDDDDD" (1..9
+// arbitrary decimal digits) denotes S seconds plus exactly that fraction, the
+// same instant as the nanosecond spelling.
+func verifC16Fraction(nDigits int) {
+	def := vsymTimeNs(5)
+	digits := vsymString("digits", nDigits)
+	var frac int64
+	for i := 0; i < nDigits; i++ {
+		c := digits[i]
+		vsymAssume(vsymAnd(c >= '0', c <= '9'))
+		frac = frac*10 + int64(c-'0')
+	}
+	for i := nDigits; i < 9; i++ {
+		frac *= 10
+	}
+	t, err := parseTimestamp(lokiapi.LokiTime("1700000000."+digits), def)
+	vsymAssert(err == nil, "seconds with a fraction are accepted")
+	vsymAssert(t.UnixNano() == 1700000000*1e9+frac, "seconds with a fraction denote that instant, to the nanosecond")
+	vsymReach("C16_fraction")
+}
+
+func VerifHarness_C16_Fraction_3() { verifC16Fraction(3) }
+func VerifHarness_C16_Fraction_9() { verifC16Fraction(9) }
